@@ -238,6 +238,8 @@ def run_check(prop, tier, runs_override=None):
         budget_left -= 1
         log('picosim: violation class %s (job %d): %s' % (
             v['vclass'], idx, v['detail'][:300]))
+        if hasattr(engine, 'pin'):
+            sc = engine.pin(sc)
         try:
             small, v2, used = core.minimise(engine, sc, v, budget=int(
                 os.environ.get('PICOSIM_SHRINK', '300')), log=None)
